@@ -2,7 +2,8 @@
 """shrink_dom2.py <vdom-id> (--line '<request>' | --file F | --findings OUT)  [--drv crabdrv]
 Delta-debug a (dom2.hist <name> (params ...) (ops ...)) request of harness/h_dom2.cpp (built with -DVDOM=<id>
 against $REPO, default /repo): ops are removed, then parameters, while harness | crabdrv still reports a
-non-ok verdict with the same tag ([C03] / [C04] / [C16]).  Prints the minimal request, the verdict and the result.
+non-ok verdict with the same tag ([C03] / [C04] / [C16]); with --err also while CRAB_ERROR is raised; a crash
+(non-zero exit status) or a 60 s timeout of the harness is a verdict of its own.  Prints the minimal request, the verdict and the result.
 --findings OUT : OUT is a harness output file and OUT.v the driver's verdicts (as written by hrun.py); every
 reported line is minimised; prints one block per finding."""
 import sys, os, subprocess, re, tempfile
@@ -28,6 +29,7 @@ class Shrinker:
     def __init__(self, vdom, drv=None):
         d, err = vlib.build_repo(); assert not err, err
         self.exe, err = vlib.build_harness(d, f"h_dom2_{vdom}", [f"-DVDOM={vdom}"], "h_dom2"); assert self.exe, err
+        self.keep_err = False
         self.drv = drv or os.environ.get("DRV") or os.path.join(vlib.LEAN, ".lake", "build", "bin", "crabdrv")
 
     def run(self, head, params, ops):
@@ -35,15 +37,22 @@ class Shrinker:
         with tempfile.NamedTemporaryFile("w", suffix=".ops", delete=False) as f:
             f.write(req + "\n"); fn = f.name
         try:
-            o = subprocess.run([self.exe, "--ops", fn], stdout=subprocess.PIPE, stderr=subprocess.DEVNULL, text=True, timeout=60).stdout
+            hp = subprocess.run([self.exe, "--ops", fn], stdout=subprocess.PIPE, stderr=subprocess.DEVNULL, text=True, timeout=60)
+            o = hp.stdout
+            if hp.returncode != 0:
+                os.unlink(fn)
+                return ("CRASH", None), f"harness exit status {hp.returncode}", o, req
         except subprocess.TimeoutExpired:
-            o = ""
+            os.unlink(fn)
+            return ("TIMEOUT", None), "harness timeout (60 s)", "", req
         os.unlink(fn)
         v = subprocess.run([self.drv], input=o, stdout=subprocess.PIPE, text=True).stdout
         for l in v.split("\n"):
             mm = re.match(r"\d+ (UNSOUND|IMPRECISE|DRIFT) (\[C\d+\])?", l)
             if mm:
                 return (mm.group(1), mm.group(2)), l, o, req
+            if self.keep_err and re.match(r"\d+ SKIP .*CRAB_ERROR", l):
+                return ("ERR", None), l, o, req
         return None, None, o, req
 
     def shrink(self, line):
@@ -86,20 +95,22 @@ class Shrinker:
 
 def main():
     a = sys.argv[1:]
-    vdom = a[0]; line = None; findings = None; drv = None
+    vdom = a[0]; line = None; findings = None; drv = None; keep_err = False
     i = 1
     while i < len(a):
         if a[i] == "--line": line = a[i + 1]; i += 2
         elif a[i] == "--file": line = open(a[i + 1]).read().strip().split("\n")[0]; i += 2
         elif a[i] == "--findings": findings = a[i + 1]; i += 2
         elif a[i] == "--drv": drv = a[i + 1]; i += 2
+        elif a[i] == "--err": keep_err = True; i += 1
         else: i += 1
     sh = Shrinker(vdom, drv)
+    sh.keep_err = keep_err
     if findings:
         reqs = [l for l in open(findings).read().split("\n")]
         # the driver numbers input lines from 1, comment / empty lines included
         for l in open(findings + ".v"):
-            mm = re.match(r"(\d+) (UNSOUND|IMPRECISE|DRIFT) ", l)
+            mm = re.match(r"(\d+) (UNSOUND|IMPRECISE|DRIFT) ", l) or (keep_err and re.match(r"(\d+) SKIP .*(CRAB_ERROR)", l))
             if not mm:
                 continue
             r = sh.shrink(reqs[int(mm.group(1)) - 1])
